@@ -184,6 +184,52 @@ to `""` (two characters) instead of `"""` -/
 theorem finding_droplist_only_quotes :
     (setDropList ['"']).map unescapeDV = some ['"', '"'] ∧ ['"', '"'] ≠ ('"' :: ['"'] ++ ['"']) := by decide
 
+/-! ### data-validation formulas set by SetRange / SetSqrefDropList -/
+
+/-- `dv_set_get_roundtrip` for the formula fields, partial: SetRange (string formula) and
+SetSqrefDropList store `formulaEscaper(f)` as inner XML; GetDataValidations returns
+`unescapeDataValidationFormula` of it: equal to `f` for every formula that does not start
+with a double quote (after the XML round trip of the inner text, which is the identity on
+escaped text — not modelled) -/
+theorem dv_formula_roundtrip_partial (f : List Char) (h : [dq].isPrefixOf f = false) :
+    unescapeDV (escape f) = f := by
+  have hp : [dq].isPrefixOf (escape f) = false := by
+    cases f with
+    | nil => rfl
+    | cons c r =>
+      have hc : c ≠ '"' := by
+        intro e; subst e; simp [dq, List.isPrefixOf] at h
+      rw [escape_cons]
+      unfold escChar
+      by_cases h1 : c = '&'
+      · subst h1; simp [dq, List.isPrefixOf]
+      · by_cases h2 : c = '<'
+        · subst h2; simp [dq, List.isPrefixOf]
+        · by_cases h3 : c = '>'
+          · subst h3; simp [dq, List.isPrefixOf]
+          · have : ('"' == c) = false := by simpa using fun e => hc e.symm
+            simp [h1, h2, h3, dq, List.isPrefixOf, this]
+  unfold unescapeDV
+  rw [hp]
+  exact unescape_escape f
+
+/-- a formula that starts with a double quote (a string literal) is additionally
+un-doubled by the getter's "text detection" -/
+theorem dv_formula_quoted (r : List Char) :
+    unescapeDV (escape ('"' :: r)) = unquote ('"' :: r) := by
+  have he : escape ('"' :: r) = '"' :: escape r := by rw [escape_cons]; rfl
+  unfold unescapeDV
+  have hp : [dq].isPrefixOf (escape ('"' :: r)) = true := by rw [he]; simp [dq, List.isPrefixOf]
+  rw [hp]
+  simp only [if_true]
+  rw [unescape_escape]
+
+/-- finding (dv:Formula1:string-literal-doubled-quote): the string literal `"a""b"` set
+through SetRange reads back as `"a"b"` — the getter treats every formula starting with a
+quote as a drop list written by SetDropList -/
+theorem finding_dv_string_literal_quotes :
+    unescapeDV (escape ['"', 'a', '"', '"', 'b', '"']) = ['"', 'a', '"', 'b', '"'] := by decide
+
 /-! ## legacy XOR password hash -/
 
 /-- `xor_hash_range`, partial: for ASCII passwords of at most 23 characters the
@@ -560,5 +606,50 @@ theorem cf_numbering_example :
     allPrios (setCF (unsetCF (setCF (setCF [] ['E'] 1) ['C'] 3) ['E']) ['A'] 3) = [2, 3, 4, 5, 6, 7] := by decide
 
 end CondFmtThms
+
+/-! ## open findings about accepted-and-ignored values: what IS true of the setters -/
+
+theorem ignore_guards_pinned :
+    Facts.C18.sheetViewNames = ["normal", "pageLayout", "pageBreakPreview"] ∧
+    Facts.C18.zoomMin = 10 ∧ Facts.C18.zoomMax = 400 ∧ Facts.C18.firstPageNumberAbove = 0 := by decide
+
+/-- a valid View / in-range ZoomScale / positive FirstPageNumber reads back as set -/
+theorem view_zoom_firstpage_roundtrip (oldV newV : List Char) (oldZ newZ : Int) (oldP : Option Nat) (newP : Nat)
+    (hv : Facts.C18.sheetViewNames.any (fun n => n.toList == newV) = true)
+    (hz : 10 ≤ newZ ∧ newZ ≤ 400) (hp : 0 < newP) :
+    getView (setView oldV newV) = newV ∧ getZoom (setZoom oldZ newZ) = newZ ∧
+    getFirstPage (setFirstPage oldP newP) = newP := by
+  have hg := ignore_guards_pinned
+  refine ⟨?_, ?_, ?_⟩
+  · have hne : newV.isEmpty = false := by
+      cases newV with
+      | nil => rw [hg.1] at hv; simp at hv
+      | cons _ _ => rfl
+    simp [setView, hv, getView, hne]
+  · have h1 : newZ ≥ (Facts.C18.zoomMin : Int) ∧ newZ ≤ (Facts.C18.zoomMax : Int) := by
+      rw [hg.2.1, hg.2.2.1]; omega
+    simp [setZoom, getZoom, h1]
+  · have h1 : newP > Facts.C18.firstPageNumberAbove := by rw [hg.2.2.2]; exact hp
+    have h2 : newP ≠ 0 := by omega
+    simp [setFirstPage, getFirstPage, h1, h2]
+
+/-- finding (sheetview:View:invalid-value, sheetview:ZoomScale:out-of-range,
+layout:FirstPageNumber:zero): the full statement fails without the validity hypotheses — the
+setter has no error path for these fields, the value is dropped and the previous one stays -/
+theorem finding_invalid_values_ignored (oldV newV : List Char) (oldZ newZ : Int) (oldP : Option Nat)
+    (hv : Facts.C18.sheetViewNames.any (fun n => n.toList == newV) = false)
+    (hz : newZ < 10 ∨ 400 < newZ) :
+    setView oldV newV = oldV ∧ setZoom oldZ newZ = oldZ ∧ setFirstPage oldP 0 = oldP := by
+  have hg := ignore_guards_pinned
+  refine ⟨by simp [setView, hv], ?_, ?_⟩
+  · have h1 : ¬ (newZ ≥ (Facts.C18.zoomMin : Int) ∧ newZ ≤ (Facts.C18.zoomMax : Int)) := by
+      rw [hg.2.1, hg.2.2.1]; omega
+    simp [setZoom, h1]
+  · simp [setFirstPage]
+
+/-- concrete witnesses replayed by the harness: View "bogus", ZoomScale 5, FirstPageNumber 0 -/
+theorem finding_invalid_values_example :
+    getView (setView [] "bogus".toList) = "normal".toList ∧ getZoom (setZoom 0 5) = 100 ∧
+    getFirstPage (setFirstPage (some 5) 0) = 5 := by decide
 
 end XlModel.Props.C18
